@@ -165,9 +165,13 @@ def run(ctx):
             vals = [e for e in out[2] if e[0] == "validate"]
             parses = [e for e in out[2] if e[0] == "parse"]
             if stored == "12":
-                # undecoded text: decoded lazily, validating iff level >= 1
+                # undecoded text: decoded lazily, validating iff level >= 1;
+                # the decoded object replaces the text at every level (an
+                # in-place edit of what get() returned is an edit of the
+                # field: the E-line setters rely on it)
                 ok = out[0] == "return" and out[1] == "<decoded>" and \
-                    parses == [("parse", vl >= 1)]
+                    parses == [("parse", vl >= 1)] and \
+                    ln.attrs["_data"].get("xx") == "<decoded>"
             else:
                 ok = out[0] == "return" and out[1] == stored and \
                     (vals == [("validate", stored, dt)] if vl >= 3
